@@ -295,6 +295,15 @@ theorem verify_iff_inv (p : Params K) (pv : p.Valid) (sw : StrictWeak p.lt) (t :
     TreeInv p t ↔ (Representable p t ∧ verifyB p t = true) :=
   ⟨fun ht => ⟨inv_representable p t ht, verify_passes p pv sw t ht⟩, fun h => verify_characterised p sw t h.1 h.2⟩
 
+/-- a container instantiated with `btree_default_traits` (slot counts extracted from btree.hpp:
+`max(8, 256 / sizeof …)`) is within the capacities the theorems quantify over -/
+theorem default_traits_valid (p : Params K) (sizeofValue sizeofKey sizeofPtr : Nat)
+    (hl : p.leafMax = Gen.defaultLeafSlots sizeofValue) (hi : p.innerMax = Gen.defaultInnerSlots sizeofKey sizeofPtr) :
+    p.Valid := by
+  refine ⟨?_, ?_⟩
+  · rw [hl]; unfold Gen.defaultLeafSlots; omega
+  · rw [hi]; unfold Gen.defaultInnerSlots; omega
+
 /-! ## the whole operation language, two registers
 
 `C01.Op` / `C01.stepOp` / `C01.runOps` (Model/C01Machine.lean) are what the driver executes for every
